@@ -324,6 +324,17 @@ BansMonotoneStep == Ev.a # "Reset" => bans \subseteq bans'
 RestartEquivAtStart ==
   (Ev.a = "StartBegin" /\ disk.keys # "absent") => RestartEquivNow
 
+(* C17, server side: an entry changes only to become banned; banned stays *)
+SrvListStep ==
+  Ev.a \notin {"Reset", "StartBegin"} =>
+    /\ Len(servers') >= Len(servers)
+    /\ \A i \in 1..Len(servers) :
+          /\ servers'[i].key = servers[i].key
+          /\ (servers[i].banned => servers'[i] = servers[i])
+          /\ (servers'[i] # servers[i] => servers'[i].banned)
+    /\ \A i \in 1..Len(servers') : Valid(servers'[i].sig, gca.key)
+    /\ \A i, j \in 1..Len(servers') : servers'[i].key = servers'[j].key => i = j
+
 InvByName(n) ==
   CASE n = "SlotIsFunctionOfSet" -> SlotIsFunctionOfSet'
     [] n = "IndexInBounds"       -> IndexInBounds'
@@ -338,6 +349,7 @@ InvByName(n) ==
     [] n = "KeyNeverChanges"     -> KeyNeverChangesStep
     [] n = "BansMonotone"        -> BansMonotoneStep
     [] n = "RestartEquiv"        -> RestartEquivAtStart
+    [] n = "SrvList"             -> SrvListStep
 
 InvCheck ==
   IF l = DiagLine
